@@ -90,14 +90,12 @@ Definition load_agrees (c : case) : bool :=
     end
   end.
 
-Definition agrees (c : case) : bool := strip_agrees c && load_agrees c.
 
 Fixpoint filter_idx {A} (f : A -> bool) (i : N) (cs : list A) : list N :=
   match cs with
   | [] => []
   | c :: r => if f c then filter_idx f (i + 1) r else i :: filter_idx f (i + 1) r
   end.
-Definition mismatches (cs : list case) : list N := filter_idx agrees 0 cs.
 Definition strip_mismatches (cs : list case) : list N := filter_idx strip_agrees 0 cs.
 
 (* the property itself (boolean form, proved equivalent to the statement of C18_validated in
@@ -111,6 +109,11 @@ Definition spec_ok (c : case) : bool :=
   | _ => true
   end.
 Definition spec_failures (cs : list case) : list N := filter_idx spec_ok 0 cs.
+
+(* a case passes when the stripper agrees, the loader agrees, and what the implementation returned
+   satisfies the property (implied by the second when the result is a configuration) *)
+Definition agrees (c : case) : bool := strip_agrees c && load_agrees c && spec_ok c.
+Definition mismatches (cs : list case) : list N := filter_idx agrees 0 cs.
 
 (* stripper alone: (text, what removeComments returned) *)
 Definition pair_agrees (p : string * string) : bool := String.eqb (strip_string (fst p)) (snd p).
